@@ -106,7 +106,8 @@ def _param_leaves(t: Term, fi: FuncInfo) -> set[str]:
 
 
 def _canon_text(t: Term) -> str:
-    """Text of a term with location wrappers removed and symbol numbers erased (for comparing two executions)."""
+    """Text of a term with location wrappers removed, the guards of choices dropped and symbol numbers erased (for comparing two
+    executions of different functions)."""
 
     def fix(x: Term):
         if x[0] == "call" and x[1][0] == "lib" and x[1][1] in ("pathlib.Path", "pathlib.PurePath", "os.fspath") and len(x[2]) == 1:
@@ -115,6 +116,11 @@ def _canon_text(t: Term) -> str:
             return x[2][0]
         if x[0] == "call" and x[1] == ("lib", "os.path.dirname") and len(x[2]) == 1:
             return ("attr", x[2][0], "parent")
+        if x[0] == "phi":
+            vals = sorted({re.sub(r"#\d+", "#", show(v)) for _g, v in x[1]})
+            return ("unk", "one of " + " | ".join(vals), 0)
+        if x[0] == "comp":
+            return ("comp", x[1], x[2], tuple((tg, it, ()) for tg, it, _c in x[3]), 0)
         return None
 
     return re.sub(r"#\d+", "#", show(rewrite(t, fix)))
@@ -132,35 +138,37 @@ def rule_r1(repo: Repo, res: Result) -> None:
     tr = sx.run(gm)
     calls = [e for e in tr.events if e.kind == "call" and e.func == ("fn", ge.fq)]
     tag = f"{gm.relpath}::{gm.qualname}"
-    if len(calls) == 1:
-        call = calls[0]
+    if calls:
         rets = [t for _pc, t in tr.returns]
-        ok = call.guard == TRUE and all(t == call.result for t in rets) and bool(rets)
-        res.add("C04.R1", f"{tag}::pure delegation", ok, "returns get_evaluable_architecture(...) unconditionally" if ok else "the module-object entry point is not an unconditional delegation to the path entry point", where(call.fi, call.node), kind="structural")
-        bound = _bind_args(ge, call)
-        if "*" in bound or "**" in bound:
-            res.undecide("C04.R1", f"{tag}::forwarding", f"the delegation passes its arguments as `{show(bound.get('*') or bound.get('**'), 60)}`: cannot tell which option receives what", where(call.fi, call.node))
-            bound = {}
-        for i, pname in enumerate(ge.param_names if bound else []):
-            a = bound.get(pname)
-            if i < 2:
-                src = gm.param_names[i] if i < len(gm.param_names) else "?"
-                want = ("PARENT", ("attr", ("param", src), "__file__"))
-                got = loc(a) if a is not None else None
-                ok = got == want
-                res.add("C04.R1", f"{tag}::{pname} <- dirname({src}.__file__)", ok, f"{pname} = directory of {src}" if ok else f"`{pname}` receives `{show_loc(got) if got is not None else 'nothing'}` instead of the directory of {src}.__file__", where(call.fi, call.node), kind="flow")
-            else:
-                ok = a == ("param", pname) and pname in gm.param_names
-                same_default = pname not in gm.param_names or _default(gm, pname) == _default(ge, pname)
-                if a is None and pname in gm.param_names and _default(ge, pname) is not None:
-                    detail = f"`{pname}` of the module-object entry point is not forwarded: the path entry point always uses its default"
-                elif not ok:
-                    detail = f"`{pname}` of the path entry point receives `{show(a, 80) if a is not None else 'its default'}` from the module-object entry point"
-                elif not same_default:
-                    detail = f"default of `{pname}` differs between the two entry points"
+        results = [c.result for c in calls]
+        ok = simplify(f_or([c.guard for c in calls])) == TRUE and all(t in results for t in rets) and bool(rets)
+        res.add("C04.R1", f"{tag}::pure delegation", ok, "returns get_evaluable_architecture(...) unconditionally" if ok else "the module-object entry point is not an unconditional delegation to the path entry point", where(calls[0].fi, calls[0].node), kind="structural")
+        for n_, call in enumerate(calls):
+            suffix = "" if len(calls) == 1 else f" [call {n_ + 1}: {norm(call.node, 50)}]"
+            bound = _bind_args(ge, call)
+            if "*" in bound or "**" in bound:
+                res.undecide("C04.R1", f"{tag}::forwarding{suffix}", f"the delegation passes its arguments as `{show(bound.get('*') or bound.get('**'), 60)}`: cannot tell which option receives what", where(call.fi, call.node))
+                continue
+            for i, pname in enumerate(ge.param_names):
+                a = bound.get(pname)
+                if i < 2:
+                    src = gm.param_names[i] if i < len(gm.param_names) else "?"
+                    want = ("PARENT", ("attr", ("param", src), "__file__"))
+                    got = loc(a) if a is not None else None
+                    ok = got == want
+                    res.add("C04.R1", f"{tag}::{pname} <- dirname({src}.__file__){suffix}", ok, f"{pname} = directory of {src}" if ok else f"`{pname}` receives `{show_loc(got) if got is not None else 'nothing'}` instead of the directory of {src}.__file__", where(call.fi, call.node), kind="flow")
                 else:
-                    detail = f"{pname} forwarded unchanged (same default)"
-                res.add("C04.R1", f"{tag}::{pname} forwarded", ok and same_default, detail, where(call.fi, call.node), kind="flow")
+                    ok = a == ("param", pname) and pname in gm.param_names
+                    same_default = pname not in gm.param_names or _default(gm, pname) == _default(ge, pname)
+                    if a is None and pname in gm.param_names and _default(ge, pname) is not None:
+                        detail = f"`{pname}` of the module-object entry point is not forwarded: the path entry point always uses its default"
+                    elif not ok:
+                        detail = f"`{pname}` of the path entry point receives `{show(a, 80) if a is not None else 'its default'}` from the module-object entry point"
+                    elif not same_default:
+                        detail = f"default of `{pname}` differs between the two entry points"
+                    else:
+                        detail = f"{pname} forwarded unchanged (same default)"
+                    res.add("C04.R1", f"{tag}::{pname} forwarded{suffix}", ok and same_default, detail, where(call.fi, call.node), kind="flow")
     else:
         # no direct delegation: both entry points must perform the same calls of the scanning / graph API, with
         # root_path := dirname(root_module.__file__), module_path := dirname(module.__file__)
@@ -224,29 +232,35 @@ def rule_r1(repo: Repo, res: Result) -> None:
 
 
 def _r1_same_api_calls(repo: Repo, res: Result, T, ge: FuncInfo, gm: FuncInfo) -> None:
+    """Without a direct delegation: the path entry point, executed with root_path := dirname(root_module.__file__) and
+    module_path := dirname(module.__file__), must perform the same calls of the scanning / graph API as the module-object one."""
     tag = f"{gm.relpath}::{gm.qualname}"
     a = SymX(repo, T).run(gm)
-    subst = {}
+    args = {}
     for i, pname in enumerate(ge.param_names):
         if i < 2 and i < len(gm.param_names):
-            subst[("param", pname)] = ("attr", ("attr", ("param", gm.param_names[i]), "__file__"), "parent")
-    b = SymX(repo, T).run(ge)
+            args[pname] = ("call", ("lib", "os.path.dirname"), (("attr", ("param", gm.param_names[i]), "__file__"),), ())
+    b = SymX(repo, T).run(ge, args=args)
 
-    def sig(tr: Trace, mapping: dict) -> list[str]:
+    def sig(tr: Trace) -> list[str]:
         out = []
         for e in tr.events:
             if e.kind == "call" and e.name in API_EVENTS:
-                args = [rewrite(x, lambda y: mapping.get(y)) for x in e.args]
-                out.append(f"{e.name}({', '.join(_canon_text(x) for x in args)})")
+                out.append(f"{e.name}({', '.join(_canon_text(x) for x in e.args)})")
         return out
 
-    sa, sb = sig(a, {}), sig(b, subst)
+    sa, sb = sig(a), sig(b)
     if not sa or not sb:
         res.undecide("C04.R1", f"{tag}::delegation", "the module-object entry point neither calls the path entry point nor reaches the scanning API", where(gm, gm.node))
         return
     ok = sa == sb
-    diff = next((f"`{x}` vs `{y}`" for x, y in itertools.zip_longest(sa, sb, fillvalue="nothing") if x != y), "")
-    res.add("C04.R1", f"{tag}::same scanning calls as the path entry point", ok, "both entry points perform the same calls with dirname(__file__) as paths" if ok else f"the two entry points differ: {diff[:300]}", where(gm, gm.node), kind="flow")
+    diff = ""
+    for x, y in itertools.zip_longest(sa, sb, fillvalue="nothing"):
+        if x != y:
+            i = next((k for k in range(min(len(x), len(y))) if x[k] != y[k]), min(len(x), len(y)))
+            diff = f"`{x.split('(')[0]}`: `...{x[max(0, i - 60):i + 60]}...` vs `...{y[max(0, i - 60):i + 60]}...`"
+            break
+    res.add("C04.R1", f"{tag}::same scanning calls as the path entry point", ok, "both entry points perform the same calls, with dirname(__file__) of the module objects as paths" if ok else f"the two entry points differ in the call of {diff}", where(gm, gm.node), kind="flow")
 
 
 # =========================================================================== R3
